@@ -64,6 +64,8 @@ CHECKS = {
              "instrument": [job("$REPO", MOD, ["multiepoch.go", "first-success.go", "epoch.go", "storage.go", "multiepoch-getBlock.go", "multiepoch-getTransaction.go", "multiepoch-getBlockTime.go", "grpc-server.go"],
                                 imports={"golang.org/x/sync/errgroup": MOD + "/zzverif/verrgroup", "golang.org/x/exp/mmap": MOD + "/zzverif/vmmap",
                                          "github.com/ipld/go-car/v2": MOD + "/zzverif/vcarv2"}), ERRGROUP] + EPOCH_PERF},
+            {"name": "reload-cuts", "run": "^TestVerif_C09_ReloadCuts$",
+             "harness": ["main/kit_test.go", "main/epochkit_test.go", "main/c09_reload_cuts_test.go"], "instrument": EPOCH_PERF},
             {"name": "race", "run": "^TestVerif_C09_Race$", "race": True, "tiers": ["thorough"], "shards": {"thorough": 1, "quick": 1},
              "harness": ["main/kit_test.go", "main/race_test.go"], "instrument": []},
             {"name": "race-handlers", "run": "^TestVerif_C09_RaceHandlers$", "race": True, "tiers": ["thorough"], "shards": {"thorough": 2, "quick": 2},
